@@ -12,6 +12,8 @@
    that has them checked out.  Time: only the ORDER of stored time.time() values matters (every call yields a fresh larger
    value - the code's documented assumption); stamps are renormalised to ranks after every operation; recycle-by-age is the
    flag `old` set by Sleep (virtual clock jumps past pool_recycle).
+   Exceptions that escape the pool: a BaseException from the DBAPI (close of an overflow connection returned to a full queue;
+   rollback/commit of reset-on-return) and a raising `close` listener propagate to the caller AFTER the bookkeeping (`exc`).
    Ghost variables (not in the code): `stale` = open connections that must never be handed out again (soft-invalidated, alive at
    a pool invalidation, aged past recycle); `abandoned` = connections the pool lets go of without closing (named deviations,
    see notes/Pool.md: asyncio GC clean-up, StaticPool replacing a soft/pool-invalidated record).                              *)
@@ -21,7 +23,13 @@ CONSTANTS Kind,        \* "queue" | "null" | "static" | "singleton"
           Lifo, PrePing, Recycle, ResetOn,   \* ResetOn: "rollback" | "commit" | "none"
           Async,       \* dialect.is_async: GC clean-up detaches instead of resetting
           CkEvents,    \* set of outcomes a checkout listener may produce ({} = no listener)
-          FaultCalls,  \* DBAPI calls that may fail: subset of {"connect","ping","rollback","commit","close"}
+          FaultCalls,  \* DBAPI calls that may fail with an ordinary Exception: subset of {"connect","ping","rollback","commit","close"}
+          BaseFaults,  \* sites where the DBAPI call may raise a BaseException that is NOT an Exception (KeyboardInterrupt,
+                       \* asyncio.CancelledError, a gevent Timeout): subset of {"fullclose", "reset"}
+                       \*   "fullclose" = close() of an overflow connection returned to a FULL queue (QueuePool._do_return_conn)
+                       \*   "reset"     = rollback()/commit() of reset-on-return (_finalize_fairy)
+          CloseListener, \* a `close` pool-event listener is registered; it is called before every DBAPI close() (call "lclose")
+                       \* and may RAISE at the "fullclose" site
           MaxH, MaxLive, MaxConn, MaxDepth
 VARIABLES st, last
 vars == <<st, last>>
@@ -45,11 +53,15 @@ Norm(s) == LET S == Stamps(s) IN
              !.hs = [i \in 1..Len(s.hs) |-> IF s.hs[i].live THEN [s.hs[i] EXCEPT !.rec = NormRec(@, S)] ELSE [s.hs[i] EXCEPT !.rec = R0]]]
 
 \* ------------------------------------------------------------------ the working record of one operation
-W0(s) == [s |-> s, plan |-> <<>>, calls |-> <<>>, evs |-> <<>>, now |-> Max(Stamps(s)) + 1]
-\* one DBAPI call: the environment decides (every call is recorded in `plan`, also those that cannot fail in this configuration)
-Call(w, name) == LET w1 == [w EXCEPT !.calls = Append(@, name)] IN
-   {[w |-> [w1 EXCEPT !.plan = Append(@, FALSE)], f |-> FALSE]} \cup
-   (IF name \in FaultCalls THEN {[w |-> [w1 EXCEPT !.plan = Append(@, TRUE)], f |-> TRUE]} ELSE {})
+\* exc: exception that escapes from the operation AFTER the pool finished its bookkeeping ("none" | "Base" | "Error")
+W0(s) == [s |-> s, plan |-> <<>>, calls |-> <<>>, evs |-> <<>>, now |-> Max(Stamps(s)) + 1, exc |-> "none"]
+\* one DBAPI call: the environment decides (every call is recorded in `plan`, also those that cannot fail in this configuration).
+\* plan entries: "ok" | "fail" (ordinary Exception) | "base" (BaseException that is not an Exception) | "raise" (listener raises)
+Did(w, name, how) == [w EXCEPT !.calls = Append(@, name), !.plan = Append(@, how)]
+Call(w, name) == {[w |-> Did(w, name, "ok"), f |-> FALSE]} \cup
+                 (IF name \in FaultCalls THEN {[w |-> Did(w, name, "fail"), f |-> TRUE]} ELSE {})
+\* the `close` event listener runs first in _ConnectionRecord.__close
+Pre(w) == IF CloseListener THEN Did(w, "lclose", "ok") ELSE w
 \* _ConnectionRecord.__connect: starttime is stamped before the creator is called
 Connect(w, r) == Bind(Call(w, "connect"), LAMBDA x :
    LET t == x.w.now
@@ -59,7 +71,17 @@ Connect(w, r) == Bind(Call(w, "connect"), LAMBDA x :
         {[w |-> [w2 EXCEPT !.s.nconn = c, !.s.open = @ \cup {c}],
           r |-> [conn |-> c, start |-> t, soft |-> r.soft, fresh |-> PrePing, old |-> FALSE], ok |-> TRUE]})
 \* _ConnectionRecord.__close: a failing close() is swallowed, the connection is gone either way
-CloseConn(w, r) == {[w |-> [x.w EXCEPT !.s.open = @ \ {r.conn}], r |-> [r EXCEPT !.conn = 0]] : x \in Call(w, "close")}
+CloseConn(w, r) == {[w |-> [x.w EXCEPT !.s.open = @ \ {r.conn}], r |-> [r EXCEPT !.conn = 0]] : x \in Call(Pre(w), "close")}
+\* record.close() in the `Full` branch of QueuePool._do_return_conn.  Besides the swallowed outcomes, the call can raise OUT of
+\* record.close(): a BaseException from the DBAPI close() (Pool._close_connection swallows only Exception; the connection is gone
+\* all the same), or any exception from the `close` listener (then the DBAPI close() is never reached: the connection stays open and
+\* nobody refers to it any more - `abandoned`).  Either way the `finally: self._dec_overflow()` must still run (DoReturn).
+CloseFull(w, r) ==
+   {[w |-> c.w, exc |-> "none"] : c \in CloseConn(w, r)}
+   \cup (IF "fullclose" \in BaseFaults
+         THEN {[w |-> [Did(Pre(w), "close", "base") EXCEPT !.s.open = @ \ {r.conn}], exc |-> "Base"]} ELSE {})
+   \cup (IF CloseListener
+         THEN {[w |-> [Did(w, "lclose", "raise") EXCEPT !.s.abandoned = @ \cup {r.conn}, !.s.stale = @ \ {r.conn}], exc |-> "Error"]} ELSE {})
 \* _ConnectionRecord.invalidate
 InvalidateRec(w, r, soft) ==
    IF r.conn = 0 THEN {[w |-> w, r |-> r]}
@@ -75,7 +97,8 @@ GetConnection(w, r) ==
 DoReturn(w, r) ==
    CASE Kind = "queue" ->
           IF Len(w.s.q) < Size THEN {[w EXCEPT !.s.q = Append(@, r)]}
-          ELSE {[c.w EXCEPT !.s.overflow = @ - 1] : c \in (IF r.conn # 0 THEN CloseConn(w, r) ELSE {[w |-> w, r |-> r]})}
+          ELSE {[c.w EXCEPT !.s.overflow = @ - 1, !.exc = IF c.exc # "none" THEN c.exc ELSE @] :
+                   c \in (IF r.conn # 0 THEN CloseFull(w, r) ELSE {[w |-> w, exc |-> "none"]})}
      [] Kind = "null" -> {c.w : c \in (IF r.conn # 0 THEN CloseConn(w, r) ELSE {[w |-> w, r |-> r]})}
      [] OTHER -> {[w EXCEPT !.s.cur = r]}
 \* Pool._do_get per class  -> set of [w, r, err]
@@ -131,18 +154,26 @@ DoCheckout(s) ==
             ELSE Attempt(c.w, c.r, 2)))
 Dead(w, h) == [w EXCEPT !.s.hs[h].live = FALSE, !.s.hs[h].valid = FALSE]
 \* fairy.close() / the weakref callback of a dropped fairy: reset-on-return, then check-in
-Release(w, h) ==
-   LET r == w.s.hs[h].rec IN
-   IF ResetOn = "none" THEN {Res(x, "ok", 0) : x \in DoReturn(Dead(w, h), r)}
-   ELSE Bind(Call(Dead(w, h), ResetOn), LAMBDA x :
-          IF x.f THEN Bind(InvalidateRec(x.w, r, FALSE), LAMBDA i : {Res(y, "ok", 0) : y \in DoReturn(i.w, i.r)})
-          ELSE {Res(y, "ok", 0) : y \in DoReturn(x.w, r)})
-DoClose(s, h) == IF s.hs[h].live THEN Release(W0(s), h) ELSE {Res(W0(s), "ok", 0)}
+\* An exception that escapes (w.exc) reaches the caller of close(); inside the weakref callback of a dropped fairy it is
+\* "unraisable".  The caller's fairy object is then in no defined state: the handle is given up (`gone`).
+Fin(x, h, how) == IF x.exc = "none" THEN Res(x, "ok", 0)
+                  ELSE Res([x EXCEPT !.s.hs[h].gone = TRUE], IF how = "drop" THEN "unraisable" ELSE x.exc, 0)
+Release(w, h, how) ==
+   LET r == w.s.hs[h].rec
+       d == Dead(w, h) IN
+   IF ResetOn = "none" THEN {Fin(x, h, how) : x \in DoReturn(d, r)}
+   ELSE LET resets == Call(d, ResetOn) \cup
+                      \* _finalize_fairy: a BaseException during reset invalidates the record, checks it in, and is re-raised
+                      (IF "reset" \in BaseFaults THEN {[w |-> [Did(d, ResetOn, "base") EXCEPT !.exc = "Base"], f |-> TRUE]} ELSE {})
+        IN Bind(resets, LAMBDA x :
+             IF x.f THEN Bind(InvalidateRec(x.w, r, FALSE), LAMBDA i : {Fin(y, h, how) : y \in DoReturn(i.w, i.r)})
+             ELSE {Fin(y, h, how) : y \in DoReturn(x.w, r)})
+DoClose(s, h) == IF s.hs[h].live THEN Release(W0(s), h, "close") ELSE {Res(W0(s), "ok", 0)}
 \* garbage-collected checkout.  asyncio dialects cannot touch the connection from the GC: the record is detached and returned
 \* empty, the connection is dropped WITHOUT close (documented warning) - named deviation `abandoned`
 DoDrop(s, h) ==
    LET w == [W0(s) EXCEPT !.s.hs[h].gone = TRUE] r == s.hs[h].rec IN
-   IF ~Async THEN Release(w, h)
+   IF ~Async THEN Release(w, h, "drop")
    ELSE {Res(x, "ok", 0) : x \in DoReturn([Dead(w, h) EXCEPT !.s.abandoned = @ \cup {r.conn}, !.s.stale = @ \ {r.conn}], [r EXCEPT !.conn = 0])}
 DoInvalidate(s, h, soft) ==
    LET w == W0(s) r == s.hs[h].rec IN
@@ -195,7 +226,7 @@ NoLeak == (LiveH(st) = {}) => ((IsQueue => CheckedOut(st) = 0) /\ st.open = Idle
 \* at every state: every open connection is accounted for - idle, held by a live checkout, or a named deviation
 LedgerOK == st.open = IdleConns(st) \cup HeldConns(st) \cup st.abandoned
 \* the deviations occur only where they are documented
-AbandonedOnlyDocumented == st.abandoned # {} => (Async \/ Kind = "static")
+AbandonedOnlyDocumented == st.abandoned # {} => (Async \/ Kind = "static" \/ CloseListener)
 CountOK == IsQueue => CheckedOut(st) = Cardinality(LiveH(st))
 OpenBound == (IsQueue /\ ~Unlimited) => Cardinality(st.open \ st.abandoned) <= Size + MaxO
 IdleBound == IsQueue => Len(st.q) <= Size
@@ -211,7 +242,12 @@ NoStale == [][(last'.a = "Checkout" /\ last'.ret = "ok") => (last'.conn \in st'.
 \* a failed checkout leaves no checkout behind; a checkout that fails has a reason the environment gave it
 FailedCheckoutClean == [][(last'.a = "Checkout" /\ last'.ret # "ok") => Len(st'.hs) = Len(st.hs)]_vars
 NoSpuriousError == [][(last'.a = "Checkout" /\ last'.ret \in {"Error", "InvalidRequestError"}) =>
-                        ((\E i \in 1..Len(last'.plan) : last'.plan[i]) \/ (\E i \in 1..Len(last'.evs) : last'.evs[i] # "ok"))]_vars
+                        ((\E i \in 1..Len(last'.plan) : last'.plan[i] # "ok") \/ (\E i \in 1..Len(last'.evs) : last'.evs[i] # "ok"))]_vars
+\* releasing a checkout raises only if the environment made something raise out of the pool, and it never keeps the slot:
+\* whatever close()/drop reports, the checkout is gone from the books (CountOK / NoLeak then say the counter was decremented)
+ReleaseRaisesOnlyInjected == [][(last'.a \in {"Close", "Drop"} /\ last'.ret \notin {"ok"}) =>
+                                  (\E i \in 1..Len(last'.plan) : last'.plan[i] \in {"base", "raise"})]_vars
+ReleaseAlwaysReleases == [][(last'.a \in {"Close", "Drop"}) => ~st'.hs[last'.h].live]_vars
 TimeoutOnlyAtLimit == [][(last'.a = "Checkout" /\ last'.ret = "TimeoutError") =>
                           (IsQueue /\ ~Unlimited /\ st.q = <<>> /\ Cardinality(LiveH(st)) >= Size + MaxO)]_vars
 =============================================================================
